@@ -128,7 +128,7 @@ func checkConvert(c convCase, r *h.Rec) error {
 			return fmt.Errorf("harness: op %s not applicable to %v", opNames[op], cur)
 		}
 		r.Label("op=" + opNames[op])
-		in := append([]byte{}, ct...)
+		in := own(ct)
 		var out []byte
 		_, err, pan := call(func() ([]byte, error) {
 			var e error
